@@ -1122,6 +1122,23 @@ func c30Generate(thorough bool) []string {
 		"SELECT a IN :: FROM t", "SELECT a FROM t WHERE a NOT IN ::", "SELECT a FROM t WHERE a = :x", "SELECT a FROM t LIMIT ? OFFSET ?", "SELECT ?, ? FROM t",
 		"SELECT f(a => 1) FROM t", "SELECT * FROM t WHERE a => 1", "SELECT * FROM select(a => 1) x", "SELECT * FROM f(a => 1) select",
 	})
+	// identifier spellings: every short statement that contains back-quoted identifiers is repeated with all of them
+	// replaced by each spelling that needs (or might need) quoting for another reason: all digits, leading digit,
+	// number-like, punctuation, non-ASCII, upper case, leading underscore
+	{
+		var quoted []string
+		for s := range set {
+			if strings.Contains(s, "`") && len(s) <= 90 && !strings.Contains(s, "``") {
+				quoted = append(quoted, s)
+			}
+		}
+		sort.Strings(quoted)
+		for _, s := range quoted {
+			for _, sp := range c30Spellings {
+				set[c30Backquoted.ReplaceAllLiteralString(s, "`"+sp+"`")] = struct{}{}
+			}
+		}
+	}
 	out := make([]string, 0, len(set))
 	for s := range set {
 		out = append(out, s)
@@ -1129,6 +1146,9 @@ func c30Generate(thorough bool) []string {
 	sort.Strings(out)
 	return out
 }
+
+var c30Backquoted = regexp.MustCompile("`[^`]+`")
+var c30Spellings = []string{"2019", "1a", "1", "0x1F", "1e3", "a-b", "a.b", "a b", "é", "Ab", "_a", "a1", "$a", "a$b", "@a"}
 
 // ---------------------------------------------------------------------------
 
